@@ -152,6 +152,9 @@ func c08GenDoc(r *rand.Rand, o genOpts) map[string]any {
 	if r.Intn(5) == 0 { // empty mappings reachable through mappings: part of the document although they have no leaves
 		m[o.keys[r.Intn(len(o.keys))]] = []any{map[string]any{}, map[string]any{"sel": map[string]any{}}, map[string]any{"m": map[string]any{"n": map[string]any{}}, "v": 1}}[r.Intn(3)]
 	}
+	if r.Intn(8) == 0 { // records in lists nested three deep
+		m[o.keys[r.Intn(len(o.keys))]] = []any{[]any{[]any{map[string]any{"name": "n000"}}, []any{map[string]any{"name": "n010"}, map[string]any{"name": "n011", "v": 1}}}, []any{[]any{map[string]any{"name": "n100"}}}}
+	}
 	if r.Intn(6) == 0 { // a list of records, the shape lists of a manifest have
 		n := 1 + r.Intn(3)
 		recs := make([]any, n)
@@ -255,7 +258,7 @@ func c08ViaPatch(l, rr map[string]any) Case {
 func init() {
 	register(&Prop{
 		ID:   "C08",
-		Rule: "kinds: applydiff (L generated with every list item containing a scalar; R derived from L by deleting keyed subtrees, adding new keyed subtrees under fresh keys and replacing lists by other lists, incl. lists of more than ten items so that a[10] sorts before a[2]; Flatten(Apply(R,Diff(L,R))) == Flatten(L) on the Go side, whole resulting document vs the Coq model), apply-one (single Add/Change at a flatten-style path then Lookup), apply-nil, delete-absent, via-patch (xform.DiffMod2PatchOp + patch.Do). Non-trivial: diff has >= 2 modification kinds. Distinct by Gallina term. Documents also hold empty mappings reachable through mappings and lists of records; R may differ from L in a single leaf inside a record of an equally long list.",
+		Rule: "kinds: applydiff (L generated with every list item containing a scalar; R derived from L by deleting keyed subtrees, adding new keyed subtrees under fresh keys and replacing lists by other lists, incl. lists of more than ten items so that a[10] sorts before a[2]; Flatten(Apply(R,Diff(L,R))) == Flatten(L) on the Go side, whole resulting document vs the Coq model), apply-one (single Add/Change at a flatten-style path then Lookup), apply-nil, delete-absent, via-patch (xform.DiffMod2PatchOp + patch.Do). Non-trivial: diff has >= 2 modification kinds. Distinct by Gallina term. Documents also hold empty mappings reachable through mappings and lists of records; R may differ from L in a single leaf inside a record of an equally long list. Records in lists nested three deep; single Adds at paths with index chains of three and four.",
 		Corpus: func() []Case {
 			return []Case{
 				c08ApplyDiff(map[string]any{"a": []any{map[string]any{"x": 1, "y": 2}}}, map[string]any{"a": []any{map[string]any{"z": 1}}}), // pinned-tree defect
@@ -264,6 +267,8 @@ func init() {
 				c08ApplyMods(map[string]any{"a": map[string]any{"b": map[string]any{"c": map[string]any{}}}, "x": 1, "sel": map[string]any{}}, nil, "apply-nil"),
 				c08ApplyDiff(map[string]any{"ports": []any{map[string]any{"port": 80, "name": "http"}}}, map[string]any{"ports": []any{map[string]any{"port": 8080, "name": "http"}}}),
 				c08ApplyMods(map[string]any{}, []diff.Modification{{Type: diff.ModAdd, Path: "a.b[1][0].c", Value: 7}}, "apply-one"),
+				c08ApplyMods(map[string]any{}, []diff.Modification{{Type: diff.ModAdd, Path: "cube[1][2][3].name", Value: "x"}}, "apply-one"),
+				c08ApplyMods(map[string]any{"t": []any{[]any{[]any{[]any{map[string]any{"k": 1}}}}}}, []diff.Modification{{Type: diff.ModChange, Path: "t[0][1][2][0].name", Value: "y"}}, "apply-one"),
 			}
 		},
 		Gen: func(r *rand.Rand, tier string, idx int) Case {
